@@ -133,14 +133,17 @@ Theorem C02_client_pipeline_fragmented_real : forall (C : callees) (ms : list wm
 Proof. exact client_pipeline_fragmented_real. Qed.
 Print Assumptions C02_client_pipeline_fragmented_real.
 
-(* ... and for the SERVER machine as implemented when the header hook of the run accepts framed header sections only
-   (C01_server_quiet): every fragmentation of any pipeline of valid requests with LF-free request lines is delivered exactly. *)
+(* ... and for the SERVER machine as implemented, likewise WITHOUT any hypothesis about the run or the hooks: valid messages
+   are framed (Content-Length or chunked), so the 411 peek never fires on them.  (Proof: the run under the hook that
+   additionally refuses unframed header sections satisfies C01_server_quiet; it ends without error, and a run that
+   ends without error under that hook is step for step a run under the given one.)  Together with the client
+   statement: EVERY fragmentation of ANY pipeline of valid messages with LF-free start lines is delivered exactly by
+   the machines as implemented. *)
 Theorem C02_server_pipeline_fragmented_real : forall (C : callees) (ms : list wmsg) (frags : list bytes),
-  (forall p h, c_hdrs C p h = HOk -> framed_h p h = true) ->
   Forall (w_ok C Server) ms -> Forall (fun m => no_lf (w_line m) = true) ms ->
   concat_bytes frags = concat_bytes (map w_wire ms) ->
   run_keep real C Server init frags = (init, map w_delivered ms, None).
-Proof. exact server_pipeline_fragmented_real. Qed.
+Proof. exact server_pipeline_fragmented_real_unconditional. Qed.
 Print Assumptions C02_server_pipeline_fragmented_real.
 
 (* The one configuration in which the client machine must NOT read a body: the message whose framing fields it strips
